@@ -192,6 +192,22 @@ def endNodeShadow (s : Snap) (e j k : Nat) : Bool :=
        (s.dim != 0 && rangesOverlap nk.minX nk.maxX ns.minX ns.maxX))
   test a || test b
 
+/-- same fingerprint for a side change: the first or last segment of edge `e` (attached to an end
+    node's CENTRE) crosses the scan line through node `k`'s centre, and that end node shares scan
+    lines with `k` -/
+def endLegShadow (s : Snap) (e k : Nat) : Bool :=
+  let path := s.paths[e]!
+  let nk := s.nodes[k]!
+  let c := conjC s.dim nk.cx nk.cy
+  let test (a b : PathPt) (endNode : Nat) : Bool :=
+    let ns := s.nodes[endNode]!
+    crossesLine (conjC s.dim a.x a.y) (conjC s.dim b.x b.y) c &&
+      (if s.dim == 0 then rangesOverlap nk.minY nk.maxY ns.minY ns.maxY
+       else rangesOverlap nk.minX nk.maxX ns.minX ns.maxX)
+  match path, path.reverse with
+  | a :: b :: _, z :: y :: _ => test a b a.node || test y z z.node
+  | _, _ => false
+
 /-- did edge `e` have, in state `s`, a segment parallel to the axis of the coming move (equal
     coordinates in the orthogonal axis, 1e-6)?  Such segments get no scan-line events and no
     StraightConstraints; bends next to them degenerate when the two corners slide past each other. -/
@@ -264,8 +280,9 @@ def checkScene (c : Case) : CaseResult := Id.run do
           sigChecks := sigChecks + 1
           if sa != sb then
             let k := (firstSigDiff sa sb).getD 0
-            return { verdict := .specfail s!"class=side-changed {where_}: edge {e} passes node {k} on a different side: crossings before/at centre {sa.getD k (0,0)} → {sb.getD k (0,0)}{ab}",
-                     stats := [("scene.fail.side-changed", 1)] }
+            let cls := if endLegShadow s e k then "endnode-visibility" else "side-changed"
+            return { verdict := .specfail s!"class={cls} {where_}: side changed without a visible intersection: edge {e} passes node {k} on a different side: crossings before/at centre {sa.getD k (0,0)} → {sb.getD k (0,0)}{ab}",
+                     stats := [("scene.fail." ++ cls, 1)] }
     match abortTxt with
     | some txt =>
       -- the library stopped itself (its own invariant checks / a sanitizer) although every state
